@@ -579,6 +579,11 @@ def unset_shapes(rng):
         stmts += [asg(L("lst"), ("arr", [I(1), I(2), I(3), I(4)])), ("unset", [ix(L("lst"), I(rng.choice([1, 2, -1])))]), pr(L("lst"))]
     if rng.random() < 0.3:
         stmts += [("unset", [("fieldx", Sx("i"))]), pr(("ctx", "NF"))]
+    if rng.random() < 0.4:
+        # an unset local is absent again: indexing it auto-creates a map, "even if keys are integers"
+        k = rng.choice([I(1), I(2), Sx("k")])
+        stmts += [asg(L("again"), val(rng)), ("unset", [L("again")]), asg(ix(L("again"), k), val(rng)), pr(L("again")),
+                  pr(call("typeof", O("nosuch")), call("typeof", Sx("")), Bn("==", I(1), I(1)))]
     return {"runs": [(P(stmts), recs)]}
 
 
